@@ -39,6 +39,27 @@ CHECKS = {
  "C10": ("model_checking", "E-SCHED + truncation", "controlled scheduler over cleanup vs add_version/add_snapshot/cleanup parties on every small object-store layout, preemption bound 2 (thorough 3), plus stopping the cleanup before any of its deletions",
          "Every chain length 0..3(4) x snapshot subset x age pattern x orphan kind is the start layout; the cleanup is entered through the real add_version->maybe_cleanup path (draw forced by hook) or explicitly; all interleavings within the bound at request/list-page granularity; consequence-form oracle evaluated by a fresh client.",
          "deletion order of redundant snapshots is fixed to sorted order by a hook (hash-set order cannot be enumerated); version ids are counter-based under the hook", "5/C10"),
+ "C04": ("fault_enumeration", "E-FAULT on E-STATE states", "call-indexed fault enumeration: one fault at every StorageTxn call index and every Server request of a real Replica::sync, from every distinct prior state of the C01 space, on in-memory and SQLite storage",
+         "For every reachable prior state (2-3 replicas, incl. multi-version syncs) and every replica with something to sync, the sync is run once per (interruption point, fault kind): storage error, process stop at a storage call, server error before effect, effect then lost reply, stop before/after the server's effect. Afterwards every replica must satisfy the replica invariant, quiescence must succeed and converge to a fault-free result.",
+         "one fault per sync; process stop = future dropped and the storage re-read (SQLite: closed and re-opened); SQLite on a subset of states", "5/C04"),
+ "C06": ("fault_enumeration", "E-FAULT + E-KILL", "abandonment at every storage call index of real replica actions on SqliteStorage, and SIGKILL of a child process at the entry of every write-class syscall (strace fault injection), with a before/after-state oracle on the re-opened directory",
+         "Commit, undo, both rebuild modes and sync on two prior SQLite replicas: (1) every storage call fails or is the point where the future is dropped and the handle closed; (2) a child performing the action is killed at every pwrite64/write/fsync/fdatasync/ftruncate/unlink (quick: every 5th point), including the checkpoint on close after the action was acknowledged. The re-opened store must be exactly before or exactly after, and after whenever the action had returned.",
+         "process-kill semantics (page cache survives); SQLite's own recovery trusted; quick tier subsamples the kill points", "5/C06"),
+ "C08": ("model_checking", "E-DIFF over backends", "exhaustive enumeration of Server call sequences up to a depth on fresh instances of every backend, in lock step with the reference chain model",
+         "All sequences of d calls (add_version with nil/latest/stale/unknown parents and empty/all-byte-values/300 KB payloads, get_child_version, add_snapshot, get_snapshot, re-open) from 1-2 handles on: local; git local-only; git with a shared bare remote and two clones; the real CloudServer over the in-memory object store; the real HTTP client against a harness server written from docs/http.md.",
+         "depth 4 (object store), 3 (local), 2 (HTTP, git) in the quick tier because every git call costs several processes and process creation does not scale in this sandbox; AWS/GCP adapters and a real sync server are not reachable offline", "5/C08"),
+ "C11": ("fault_enumeration", "E-FAULT", "fault at every internal step of add_version / add_snapshot of the local (failpoints), object-store (every request) and git (every git command and file write) backends x {error, effect-then-error, process stop} x {restart, keep handle}, followed by continued syncs of the interrupted and other replicas",
+         "After the single fault the interrupted replica syncs again, another replica commits and syncs, both sync again, a new replica syncs; all must succeed, all replicas must be identical and contain both changes, the chain served to a fresh handle must replay to that state, and a stale-parent probe must be rejected naming the latest.",
+         "git with a shared remote only in the thorough tier; a 'stop' at a failpoint unwinds the stack (equivalent to what SQLite/git see after a process exit at that point)", "5/C11"),
+ "C13": ("exploration", "exhaustive sweep", "exhaustive tamper/mismatch/truncation sweep of sealed values against an independent implementation of the documented scheme (ring primitives, RFC-vector self-check), plus inspection and byte-flipping of what the three remote backends store",
+         "Every single-byte modification (all 255 values), every truncation, every secret/salt/version-id mismatch must be rejected; crate-sealed values must open under the documented derivation/AAD/envelope and model-sealed values must open in the crate; HTTP bodies, object-store objects and git files are opened with the documented salt and AAD and flipped byte-by-byte and read back through the Server.",
+         "randomness quality of nonces is not decidable by enumeration (only distinctness over the run); 64 KB payload: all 255 values at both ends, two values elsewhere", "5/C13"),
+ "C16": ("model_checking", "E-DIFF", "exhaustive enumeration of StorageTxn call scripts executed in lock step on InMemoryStorage and SqliteStorage with every return value and the full observation after every transaction end and after re-open compared; legacy-schema databases built by raw SQL; read-only handles",
+         "Every script of d calls over 24-38 calls (commit, abandon, close+re-open included), also after a populated committed prefix; databases created under schemas 0.8, 0.9, (0,1), (0,2) with pre-loaded content are upgraded and compared; every mutator and commit on a read-only handle must fail and change nothing.",
+         "documented contract restrictions (set_working_set_item only inside the working set, no call after commit); error messages not compared", "5/C16"),
+ "C17": ("model_checking", "E-SCHED with lock probe", "controlled scheduler over real SqliteStorage handles (own actor threads) on one directory: every StorageTxn call is a scheduling point, a transaction may start only when a harness probe connection finds the write lock free; all interleavings executed; audit by a fresh handle",
+         "2-6 handles run commit / read-modify-write / re-open / commit+undo / rebuild / read programs; because the code's real BEGIN IMMEDIATE locking decides which interleavings exist, a change that splits an action over two transactions or defers the lock widens the explored space automatically.",
+         "OS-thread preemption inside the actor thread and inside SQLite is not enumerated; separate processes are represented by separate handles/threads", "5/C17"),
  "C12": ("model_checking", "E-STATE", "explicit-state search with snapshot urgency and avoid_snapshots as enumerated environment answers; independent snapshot decoder + chain-replay model; fresh replica from snapshot on every state",
          "Every history (incl. multi-version syncs and odd Unicode strings) x every urgency answer; each uploaded snapshot is decoded independently and compared with the chain replay at exactly its version; on every state a new replica is started from the latest snapshot against a server that discarded the earlier versions.",
          "snapshot => urgency>=threshold is asserted (the statement's 'only when'); the converse is counted, not asserted; one 2000-task (thorough 20000) scenario stands for 'thousands of tasks'", "5/C12"),
@@ -78,7 +99,10 @@ m = {
   },
   "engines": [
     {"name": "E-STATE", "path": "harness/src/explore/state.rs", "serves_properties": ["C01","C03","C05","C07","C12","C14","C15","C19"], "kind_free_text": "explicit-state depth-bounded DFS with iterative deepening over real objects, canonical-key dedup, rayon-parallel"},
-    {"name": "E-SCHED", "path": "harness/src/explore/sched.rs", "serves_properties": ["C02","C09","C10"], "kind_free_text": "controlled scheduler over real futures: one runnable task at a time, stateless DFS over choice prefixes with iterative deviation (preemption/fault) bounding"},
+    {"name": "E-FAULT", "path": "harness/src/world/proxy.rs", "serves_properties": ["C04","C05","C06","C11"], "kind_free_text": "call-indexed fault enumeration: recording run numbers every StorageTxn call / Server request / object-store request / named failpoint, then one run per (point, fault kind)"},
+    {"name": "E-KILL", "path": "harness/src/props/c06.rs", "serves_properties": ["C06"], "kind_free_text": "child process under strace -e inject=<syscall>:signal=KILL:when=<n>, one run per write-class syscall of an uninjected trace"},
+    {"name": "E-DIFF", "path": "harness/src/props/c16.rs", "serves_properties": ["C05","C08","C16"], "kind_free_text": "lock-step differential of two implementations / implementation vs reference model on every call of every enumerated script"},
+    {"name": "E-SCHED", "path": "harness/src/explore/sched.rs", "serves_properties": ["C02","C09","C10","C17"], "kind_free_text": "controlled scheduler over real futures: one runnable task at a time, stateless DFS over choice prefixes with iterative deviation (preemption/fault) bounding"},
   ],
   "checks": checks,
   "notes": "All checks: exit 0 = held on everything explored (KNOWN-FINDING lines allowed), exit 1 + VIOLATION line, exit >=2 machinery failure. Known findings: /verif/known_findings.json.",
